@@ -45,6 +45,16 @@ func eligible(prop string, p *progen.Prog) bool {
 		return emitters(p) > 0
 	case "C03scale":
 		return p.Par != nil && len(p.Par.Colls) > 0
+	case "C10scale", "C10scale8":
+		if p.Par == nil {
+			return false
+		}
+		for _, c := range p.Par.Colls {
+			if c.End != nil {
+				return true
+			}
+		}
+		return false
 	}
 	return true
 }
@@ -156,8 +166,8 @@ func Generate(rng *rand.Rand, prop, tier string, gomaxprocs int) *Desc {
 	d := &Desc{Engine: "l2", Prop: prop, GOMAXPROCS: gomaxprocs}
 	progs := eligibleProgs(prop)
 	nexec := 1
-	if prop == "C03scale" {
-		return generateScale(rng, tier, gomaxprocs, progs)
+	if prop == "C03scale" || prop == "C10scale" || prop == "C10scale8" {
+		return generateScale(rng, prop, tier, gomaxprocs, progs)
 	}
 	switch r := rng.Intn(10); {
 	case r >= 9:
@@ -313,6 +323,9 @@ func Generate(rng *rand.Rand, prop, tier string, gomaxprocs int) *Desc {
 				}
 			}
 		}
+		if rng.Intn(6) == 0 {
+			x.CtxKind = 1
+		}
 		if prop == "C11" && p.Flow != nil && rng.Intn(4) == 0 {
 			setHold(rng, p, &x)
 		}
@@ -449,7 +462,7 @@ func setHold(rng *rand.Rand, p *progen.Prog, x *ExecD) {
 }
 
 func pickPolicy(rng *rand.Rand, prop string) string {
-	names := []string{"uniform", "uniform", "pct", "starve-loop", "starve-result", "caller-first", "caller-last", "slow-worker", "worker-first"}
+	names := []string{"uniform", "uniform", "pct", "starve-loop", "starve-result", "caller-first", "caller-last", "slow-worker", "worker-first", "submit-all-first"}
 	switch prop {
 	case "C15":
 		names = append(names, "caller-last", "caller-last", "worker-first", "worker-first")
@@ -463,18 +476,29 @@ func pickPolicy(rng *rand.Rand, prop string) string {
 
 // generateScale: one Parallel over collections of 10^3..10^5 elements with a
 // small limit; the goroutine and in-flight bounds must not depend on the size.
-func generateScale(rng *rand.Rand, tier string, gmp int, progs []int) *Desc {
-	d := &Desc{Engine: "l2", Prop: "C03scale", GOMAXPROCS: gmp}
+func generateScale(rng *rand.Rand, prop, tier string, gmp int, progs []int) *Desc {
+	d := &Desc{Engine: "l2", Prop: prop, GOMAXPROCS: gmp}
 	pi := progs[rng.Intn(len(progs))]
 	p := programs[pi].P
 	x := ExecD{Prog: pi, TaskOut: map[int]int{}, PredOut: map[int]int{}, Len: map[int]int{}, Colls: map[int]*CollD{}}
 	x.Conc = 1 + rng.Intn(4)
 	x.Bools = [2]bool{rng.Intn(2) == 0, false}
 	total := 0
+	large := false
 	for _, c := range p.Par.Colls {
 		n := 1000 + rng.Intn(3000)
 		if tier == "thorough" {
-			n = 10000 + rng.Intn(40000)
+			n = 10000 + rng.Intn(90000)
+		}
+		// an End function over a collection whose size passes 2^8 or 2^16: the
+		// count of element calls it waits for must not be held in anything narrower
+		switch {
+		case prop == "C10scale8":
+			n = 257 + rng.Intn(600)
+		case prop == "C10scale" && c.End != nil && !large:
+			n, large = 70000+rng.Intn(4000), true
+		case prop == "C10scale":
+			n = rng.Intn(300)
 		}
 		cd := &CollD{Fail: map[int]int{}}
 		cd.Vals = make([]uint64, n)
@@ -489,6 +513,9 @@ func generateScale(rng *rand.Rand, tier string, gmp int, progs []int) *Desc {
 	total += len(p.Par.Tasks) + len(p.Probes) + 40
 	d.Execs = []ExecD{x}
 	d.Policy = []string{"uniform", "starve-result", "worker-first", "caller-first"}[rng.Intn(4)]
+	if prop != "C03scale" && rng.Intn(4) != 0 {
+		d.Policy = "submit-all-first" // everything is submitted before much of it has run
+	}
 	d.Budget = 60 * total
 	d.FairAfter = d.Budget / 2
 	return d
